@@ -39,6 +39,12 @@ def run(ctx):
         lo = r.randrange(0, 1 << 20)
         mjobs.append(("stw", params, (lo, lo + per), False, r.choice(["0.05", "0.1", "0.3", "0.5"])))
     proto.miri_batch(ctx, "C04", mjobs)
+    if not ctx.quick():
+        tj = []
+        for i in range(48):
+            r = ctx.rng("tsan", i)
+            tj.append(("stw", {"seed": ctx.seed * 31337 + i, "threads": r.choice([2, 3, 4]), "ops": r.choice([200, 600]), "perturb": r.choice([0, 200])}))
+        proto.run_tsan(ctx, "C04", tj)
     ctx.required_counters = ["PARK_SLOW", "UNPARK_SLOW_WAITS", "SAFEPOINT_SLOW", "GC_COALESCED", "THREADS_SPAWNED", "JOIN_WAITED",
                              "STW_OPS_MULTI", "MUTATOR_CHECKS", "miri_schedules_completed"]
     ctx.min_distinct = 20
